@@ -83,11 +83,19 @@ func c15FreeRun(c *Ctx) error {
 			}
 		}(r)
 	}
-	reorgs := 0
+	reorgs, notStored := 0, 0
+	firstNot := ""
 	for i := range nodes {
 		out := ci.Op("add " + nodes[i].Hdr.Hex())
 		if strings.Contains(out, "W setstate") {
 			reorgs++
+		}
+		// readers must not make a submission fail (a store that refuses statements which overlap in time)
+		if !strings.HasPrefix(out, "stored") {
+			notStored++
+			if firstNot == "" {
+				firstNot = fmt.Sprintf("submission %d: %s", i, out)
+			}
 		}
 	}
 	atomic.StoreInt32(&stop, 1)
@@ -96,6 +104,19 @@ func c15FreeRun(c *Ctx) error {
 	c.R.Case("free-running tip readers against a reorganising submitter", reorgs > 10)
 	c.R.Count("free run: tip reads by 4 free-running readers", int(reads))
 	c.R.Count("free run: reorganisations while they read", reorgs)
+	if rows, err := ci.Dump(); err == nil {
+		orphans := 0
+		for _, r := range rows {
+			if r.State == "ORPHAN" {
+				orphans++
+			}
+		}
+		if notStored > 0 || len(rows) != steps+1 || orphans > 0 {
+			c.R.Fail(lib.Failure{Case: "free-running tip readers", Ops: []string{fmt.Sprintf("# c15 free run: %d submissions alternately extending two branches from genesis, 4 readers calling the tip query without pause", steps)},
+				What:     fmt.Sprintf("with readers running, %d of %d submissions were not stored; the table holds %d rows (%d expected), %d of them ORPHAN: not the result of any sequential ingestion", notStored, steps, len(rows), steps+1, orphans),
+				Expected: "every submission stored, the same table as without readers", Observed: firstNot, Signature: "c15-free-submission-fails-under-readers"})
+		}
+	}
 	if bad > 0 {
 		fb, _ := firstBad.Load().(string)
 		c.R.Fail(lib.Failure{Case: "free-running tip readers", Ops: []string{fmt.Sprintf("# c15 free run: %d submissions alternately extending two branches from genesis (each overtakes the other), 4 readers calling the tip query without pause", steps)},
